@@ -43,8 +43,9 @@ def gen_async_node(rng, kinds):
     raise KeyError(k)
 
 
-def gen_sync_node(rng):
-    k = rng.choice(["map", "map", "filter", "slice", "sliding_window"])
+def gen_sync_node(rng, order_free=False):
+    # after a keyed partition the cross-key order is legitimately timing dependent: only position-independent nodes
+    k = rng.choice(["map", "map", "filter"] if order_free else ["map", "map", "filter", "slice", "sliding_window"])
     if k == "map":
         return {"kind": "map", "f": rng.choice([["inc"], ["dbl"], ["id"]])}
     if k == "filter":
@@ -66,9 +67,10 @@ def gen_pipeline(rng, kinds, allow_zip=True, two_async=0.3, sink_async=0.7, p_zi
     else:
         last = 0
         n_async = 2 if rng.random() < two_async else 1
+        keyed = False
         for a in range(n_async):
             if rng.random() < 0.35:
-                nd = gen_sync_node(rng)
+                nd = gen_sync_node(rng, order_free=keyed)
                 nd["ups"] = [last]
                 nodes.append(nd)
                 last = len(nodes) - 1
@@ -79,11 +81,12 @@ def gen_pipeline(rng, kinds, allow_zip=True, two_async=0.3, sink_async=0.7, p_zi
             nd["ups"] = [last]
             nodes.append(nd)
             last = len(nodes) - 1
+            keyed = keyed or (nd["kind"] == "partition_timeout" and bool(nd.get("key")))
             if nd["kind"] in BATCHING and (a + 1 < n_async or rng.random() < 0.5):
                 nodes.append({"kind": "flatten", "ups": [last]})
                 last = len(nodes) - 1
         if rng.random() < 0.25:
-            nd = gen_sync_node(rng)
+            nd = gen_sync_node(rng, order_free=keyed)
             if nd["kind"] != "sliding_window" and nodes[last]["kind"] not in BATCHING:
                 nd["ups"] = [last]
                 nodes.append(nd)
@@ -183,9 +186,18 @@ def run_adaptive(nodes, rng, n_ops, opts=None, flavour="future"):
                     calm = 0
                 else:
                     await do({"op": "advance", "dt": big})
-                    calm = 0 if busy(obs[-1]) or run.pending or run.jobs else calm + 1
+                    calm = 0 if busy(obs[-1]) or run.jobs else calm + 1
                     if calm >= 3:
                         break
+            # finish without letting time pass, so that the final observation is a quiescent point
+            # (a timed window hands an empty batch to an asynchronous consumer at every tick)
+            for _ in range(40):
+                if run.pending:
+                    await do({"op": "sinkdone", "tok": sorted(run.pending)[0]})
+                elif run.jobs:
+                    await do({"op": "jobdone", "job": sorted(run.jobs)[0]})
+                else:
+                    break
             return obs
         finally:
             run.cleanup()
